@@ -21,7 +21,9 @@ MaxDn == 2147483647
 DaysPerEra == 146097
 UnixEpochDn == 719162           \* 1970-01-01
 
+\* @type: <<Int, Int, Int>>;
 MinYmd == <<-5879611, 6, 23>>
+\* @type: <<Int, Int, Int>>;
 MaxYmd == <<5879611, 7, 12>>
 
 Astro(y) == IF y < 0 THEN y + 1 ELSE y          \* label -> astronomical year
@@ -35,7 +37,9 @@ MonthLen(y, m) == CASE m \in {1, 3, 5, 7, 8, 10, 12} -> 31
                     [] m \in {4, 6, 9, 11} -> 30
                     [] OTHER -> IF IsLeap(y) THEN 29 ELSE 28
 
+\* @type: Seq(Int);
 CumCommon == <<0, 31, 59, 90, 120, 151, 181, 212, 243, 273, 304, 334>>
+\* @type: Seq(Int);
 CumLeap   == <<0, 31, 60, 91, 121, 152, 182, 213, 244, 274, 305, 335>>
 CumDays(y, m) == IF IsLeap(y) THEN CumLeap[m] ELSE CumCommon[m]
 
@@ -45,9 +49,11 @@ PrevYear(y) == IF y = 1 THEN -1 ELSE y - 1
 (***************************************************************************)
 (* (a) Successor machine                                                   *)
 (***************************************************************************)
+\* @type: (Int, Int) => { dn: Int, y: Int, m: Int, d: Int, wd: Int, doy: Int, wk: Int };
 CivilStart(dn0, y0) == [dn |-> dn0, y |-> y0, m |-> 1, d |-> 1, wd |-> 1, doy |-> 1, wk |-> 1]
 \* Both 0001-01-01 (dn 0) and -0400-01-01 (dn -146097) are Mondays that start ISO week 1.
 
+\* @type: { dn: Int, y: Int, m: Int, d: Int, wd: Int, doy: Int, wk: Int } => { dn: Int, y: Int, m: Int, d: Int, wd: Int, doy: Int, wk: Int };
 Tomorrow(s) ==
   LET lastOfMonth == s.d = MonthLen(s.y, s.m)
       y2  == IF lastOfMonth /\ s.m = 12 THEN NextYear(s.y) ELSE s.y
@@ -85,11 +91,13 @@ MonthFromDoy(leap, doy) ==
 MonthOf(dn) == MonthFromDoy(IsLeap(YearOf(dn)), Doy(dn))
 DayOf(dn) == Doy(dn) - CumDays(YearOf(dn), MonthOf(dn))
 
+\* @type: Int => <<Int, Int, Int>>;
 Dn2Ymd(dn) == LET y == YearOf(dn)
                   doy == Doy(dn)
                   m == MonthFromDoy(IsLeap(y), doy)
               IN <<y, m, doy - CumDays(y, m)>>
 
+\* @type: (<<Int, Int, Int>>, <<Int, Int, Int>>) => Bool;
 LexLe(a, b) == \/ a[1] < b[1]
                \/ (a[1] = b[1] /\ a[2] < b[2])
                \/ (a[1] = b[1] /\ a[2] = b[2] /\ a[3] <= b[3])
